@@ -49,9 +49,16 @@ pub fn check_program(ctx: &Ctx, s: &S, text: &str, features: &std::collections::
     ctx.announce(true, None, text);
     let r = pipe::with_front(text, |front| -> Result<bool, Failure> {
         match front {
-            // The definition-order check is not a typing rule: a program it rejects is outside
-            // this property's domain.
-            Front::ParseErr(e) if e.iter().all(|m| m.contains("will not be available in time")) => Ok(false),
+            // The definition-order check is not a typing rule: a program that the rule (as the
+            // parser documents it; R-order) rejects is outside this property's domain. A program
+            // that satisfies the rule must not be rejected by it.
+            Front::ParseErr(e) if e.iter().all(|m| m.contains("will not be available in time")) => {
+                if crate::refs::order::order_ok(&s.flatten()) {
+                    Err(Failure::new(format!("a fully annotated well-typed program that satisfies the definition-order rule is rejected by the definition-order check: {e:?}"), text))
+                } else {
+                    Ok(false)
+                }
+            }
             Front::TokenizeErr(e) | Front::ParseErr(e) => Err(Failure::new(format!("a fully annotated well-typed program is rejected before type checking: {e:?}"), text)),
             Front::TypeErr { errors, .. } => Err(Failure::new(format!("a fully annotated well-typed program (reference type `{}`) is rejected: {errors:?}", tc.show(&want)), text)),
             Front::Accepted { parsed, elaborated, ty, .. } => {
@@ -74,7 +81,7 @@ pub fn check_program(ctx: &Ctx, s: &S, text: &str, features: &std::collections::
         Err(p) => Err(Failure::new(p, text).with_sig("panic")),
         Ok(o) => {
             if !o? {
-                ctx.class("rejected by the definition-order check only (outside the typing rules; not judged)");
+                ctx.class("rejected by the definition-order check, as the documented rule demands (outside the typing rules)");
                 return Ok(());
             }
             ctx.class("accepted at a convertible type; elaboration filled holes only");
@@ -105,6 +112,90 @@ fn generated_case(ctx: &Ctx, ch: &mut Ch) -> Outcome {
     check_program(ctx, &p.s, &p.text, &p.features)
 }
 
+/// Groups around the boundary of the definition-order rule: 2-4 annotated int / int -> int
+/// definitions, a third of them functions, half of the others not syntactic values, which freely
+/// mention earlier, later and nested definitions; nested in definitions and function bodies.
+fn order_group(ch: &mut Ch, depth: usize, outer: &[(String, bool)], counter: &mut usize) -> String {
+    let n = 2 + ch.pick(3);
+    let names: Vec<(String, bool)> = (0..n)
+        .map(|_| {
+            *counter += 1;
+            (format!("{}{}", ["d", "é", "k"][*counter % 3], *counter), ch.chance(1, 3))
+        })
+        .collect();
+    let mut visible: Vec<(String, bool)> = outer.to_vec();
+    visible.extend(names.iter().cloned());
+    fn int_atom(ch: &mut Ch, visible: &[(String, bool)]) -> String {
+        let ints: Vec<&(String, bool)> = visible.iter().filter(|(_, is_fn)| !is_fn).collect();
+        let fns: Vec<&(String, bool)> = visible.iter().filter(|(_, is_fn)| *is_fn).collect();
+        match ch.pick(4) {
+            0 => ch.pick(10).to_string(),
+            1 if !fns.is_empty() => format!("{} {}", fns[ch.pick(fns.len())].0, ch.pick(5)),
+            _ if !ints.is_empty() => ints[ch.pick(ints.len())].0.clone(),
+            _ => "1".to_owned(),
+        }
+    }
+    let mut s = String::new();
+    for (name, is_fn) in &names {
+        let param = |counter: &mut usize| {
+            *counter += 1;
+            format!("n{}", *counter)
+        };
+        let (ann, rhs) = if *is_fn {
+            let p = param(counter);
+            let mut vis2 = visible.clone();
+            vis2.push((p.clone(), false));
+            let lam = format!("({p} : int) => {} + {}", int_atom(ch, &vis2), int_atom(ch, &vis2));
+            // A function written as a value, or wrapped so that it is not a syntactic value.
+            let rhs = match ch.pick(6) {
+                0 => format!("if true then ({lam}) else ({lam})"),
+                1 => {
+                    let w = param(counter);
+                    format!("(({w} : int -> int) => {w}) ({lam})")
+                }
+                _ => lam,
+            };
+            ("(int -> int)", rhs)
+        } else {
+            let rhs = match ch.pick(5) {
+                0 => ch.pick(10).to_string(),
+                1 if depth > 0 => format!("({})", order_group(ch, depth - 1, &visible, counter)),
+                2 if depth > 0 => {
+                    let p = param(counter);
+                    let mut vis2 = visible.clone();
+                    vis2.push((p.clone(), false));
+                    format!("(({p} : int) => {}) {}", order_group(ch, depth - 1, &vis2, counter), ch.pick(4))
+                }
+                _ => format!("{} + {}", int_atom(ch, &visible), int_atom(ch, &visible)),
+            };
+            ("int", rhs)
+        };
+        s.push_str(&format!("{name} : {ann} = {rhs}; "));
+    }
+    s.push_str(&int_atom(ch, &visible));
+    s
+}
+
+fn order_case(ctx: &Ctx, ch: &mut Ch) -> Outcome {
+    let mut counter = 0;
+    let depth = ch.pick(3);
+    let text = order_group(ch, depth, &[], &mut counter);
+    let Some(toks) = crate::refs::lex::expected_stream(&text) else { return Err(Failure::new("harness: the generated text does not lex", text)) };
+    if toks.len() >= 240 {
+        ctx.class("order-rule: skipped, 240 tokens or more");
+        return Ok(());
+    }
+    let Some(s) = crate::checks::c07::with_grammar(|g| crate::refs::chart::parse_tokens(g, &toks).1) else {
+        return Err(Failure::new("harness: the generated text is not a sentence", text));
+    };
+    let s = s.flatten().unparen();
+    let ok = crate::refs::order::order_ok(&s);
+    ctx.class(if ok { "order-rule: the group satisfies the documented rule" } else { "order-rule: the documented rule rejects the group" });
+    let mut feats = std::collections::BTreeSet::new();
+    feats.insert("group of >= 2 definitions");
+    check_program(ctx, &s, &sast::print_plain(&s), &feats)
+}
+
 const REGRESSIONS: [&str; 6] = [
     "(y : t = 4; t : type = u; u : type = int; y) + 1",
     "a : int = 1; b : int = a + 1; c : type = int; (b + a)",
@@ -120,7 +211,7 @@ pub fn def(tier: Tier) -> CheckDef {
     CheckDef {
         id: "C05",
         level: "exploration",
-        rule: "proptest-driven type-directed generation of fully annotated programs (goal-directed over NbE types: arithmetic, conditionals, higher-order and immediately applied functions, dependent and polymorphic definitions, type-level conditionals and applications in annotations, groups of 1-5 definitions nested in definitions and bodies, recursive and mutually recursive functions, forward type aliases, implicit binders), plus every closed explicit program up to size 5 (quick) / 6 (thorough) over a small vocabulary that the reference checker accepts; domain = the programs an independent checker for explicit terms (R-core) accepts; oracle = gram accepts them at a type convertible with R-core's, and the elaborated term equals a snapshot of the parser's output taken before checking, node for node, except where the snapshot has a hole; an abort of the checker on such a program is a violation; non-trivial = >= 2 binders and a dependent type, a group of >= 2 definitions, recursion, or a forward alias; distinct by program text",
+        rule: "proptest-driven type-directed generation of fully annotated programs (goal-directed over NbE types: arithmetic, conditionals, higher-order and immediately applied functions, dependent and polymorphic definitions, type-level conditionals and applications in annotations, groups of 1-5 definitions nested in definitions and bodies, recursive and mutually recursive functions, forward type aliases, implicit binders), plus every closed explicit program up to size 5 (quick) / 6 (thorough) over a small vocabulary that the reference checker accepts; plus groups of 2-4 annotated int / int -> int definitions (functions also in non-value form) that freely mention earlier, later and nested definitions, around the boundary of the definition-order rule; domain = the programs an independent checker for explicit terms (R-core) accepts and that satisfy the definition-order rule as the parser documents it (R-order: a definition that is not a syntactic value may reach, through syntactic values, only non-values that come strictly before it); oracle = gram accepts them at a type convertible with R-core's, and the elaborated term equals a snapshot of the parser's output taken before checking, node for node, except where the snapshot has a hole; an abort of the checker on such a program is a violation; non-trivial = >= 2 binders and a dependent type, a group of >= 2 definitions, recursion, or a forward alias; distinct by program text",
         assumptions: vec![
             "the typing rules are those of R-core (type : type; explicit application only; no eta; lambda annotations ignored by conversion; all definitions of a group are transparent and mutually visible)",
         ],
@@ -195,6 +286,15 @@ pub fn def(tier: Tier) -> CheckDef {
                     ctx.note(&format!("enum-small: every closed explicit program of size <= {max_size} (leaves type, int, 1, true, two variables) that the reference checker accepts"));
                 }),
                 replay: None,
+            },
+            Part {
+                name: "order-rule",
+                rounds: rounds / 4,
+                run: Box::new(|ctx, r| ctx.prop("order-rule", r, 400, 300, order_case)),
+                replay: Some(Box::new(|ctx, inp| match inp {
+                    ReplayInput::Choices(c) => order_case(ctx, &mut Ch::new(c)),
+                    _ => Err(Failure::new("this part replays from choices", "")),
+                })),
             },
             Part {
                 name: "generated",
